@@ -42,6 +42,7 @@ GOOD = {
     "inet-address": ["host:80", "80", "[::1]:80", "Host.Example", "1.2.3.4:1", "[FE80::1:2]:8080", "FE80::A"],
     "null": ["anything", "x y"],
     "zcv.dt.evenint": ["2", "40", "-6"],
+    "zcv.dt.reentrant": ["v", "two words", "x=1", "<q>", "alpha", "12"],
     "zcv.dt.nested": ["2", "40", "-6"],
     "zcv.dtalt.evenint": ["3", "41", "-7"],
 }
@@ -81,7 +82,7 @@ def default_value(rng, dt):
 
 KEY_DATATYPES = ["string", "string", "integer", "boolean", "float", "port-number", "byte-size",
                  "time-interval", "identifier", "basic-key", "string-list", "inet-address",
-                 "null", "integer"]
+                 "null", "integer", "zcv.dt.reentrant"]
 
 
 def mixcase(rng, s):
